@@ -18,6 +18,8 @@ for pid, c in sorted(P.PROPS.items()):
     if "fuzz" in c:
         fz = c["fuzz"]
         vbuild.build_harness(fz["name"], fz["sources"], "fuzz", "native", extra_cflags=fz.get("cflags", ()), libs=fz.get("libs", ()))
+    if "valgrind" in c:
+        vbuild.build_harness(c["valgrind"]["name"], c["valgrind"]["sources"], "plain", "native")
     if "setup" in c:
         c["setup"]()
     print("[setup] %s ready (%.0fs)" % (pid, time.time() - t0), flush=True)
